@@ -19,9 +19,9 @@ var c17CloseFailKinds = []string{"next-primary-file-exists", "next-index-file-is
 
 func c17Extra(tier string) (gated, closeFail int) {
 	if tier == "thorough" {
-		return 120, len(c17CloseFailKinds) * 40
+		return 320, len(c17CloseFailKinds) * 40
 	}
-	return 12, len(c17CloseFailKinds) * 4
+	return 32, len(c17CloseFailKinds) * 4
 }
 
 // c17CloseFails: Close has to write, and the write cannot succeed (the file the primary or the
